@@ -112,7 +112,7 @@ int32 psX509AuthenticateCert(psPool_t *pool, psX509Cert_t *subjectCert, psX509Ce
     ret = g_in.auth[k].ret > 0 ? -g_in.auth[k].ret : g_in.auth[k].ret;        /* PS_SUCCESS or negative */
     if (ret == (int32_t) 0x80000000) { ret = PS_FAILURE; }
     verdict = g_in.auth[k].verdict;
-    if (ret == PS_SUCCESS && verdict == PS_FALSE) { verdict = PS_CERT_AUTH_PASS; }      /* success_records_a_verdict_and_issuer */
+    if (ret == PS_SUCCESS && verdict != PS_CERT_AUTH_FAIL_EXTENSION && verdict != PS_CERT_AUTH_FAIL_AUTHKEY) { verdict = PS_CERT_AUTH_PASS; }      /* success_verdict_is_pass_or_a_recorded_failure */
     if (ret != PS_SUCCESS && verdict == PS_CERT_AUTH_PASS) { verdict = PS_FALSE; }      /* failure_never_leaves_pass */
     if (issuerCert != NULL)
     {
@@ -127,8 +127,15 @@ int32 psX509AuthenticateCert(psPool_t *pool, psX509Cert_t *subjectCert, psX509Ce
     else
     {
         /* chain mode: every verdict of the chain is reset first, then set step by step */
-        for (sc = subjectCert; sc != NULL; sc = sc->next) { sc->authStatus = PS_FALSE; }
-        subjectCert->authStatus = verdict;
+        unsigned i = 0;
+        for (sc = subjectCert; sc != NULL; sc = sc->next)
+        {
+            int32_t v = g_in.auth[i < MAXLOG ? i : MAXLOG - 1].verdict;
+            if (ret == PS_SUCCESS && v != PS_CERT_AUTH_FAIL_EXTENSION && v != PS_CERT_AUTH_FAIL_AUTHKEY) { v = PS_CERT_AUTH_PASS; }
+            sc->authStatus = v;
+            i++;
+        }
+        verdict = subjectCert->authStatus;
         /* the real one names the last certificate of the chain when its self-signed test passed, else NULL */
         if (ret == PS_SUCCESS) { *foundIssuer = (g_in.auth[k].flags & 2) ? LASTC : NULL; }
     }
@@ -171,10 +178,13 @@ static int vr_is_anchor(const psX509Cert_t *a)
 #define LASTK       (gh_auth_n - 1)
 #define DATES       (g_opts.flags & VCERTS_FLAG_REVALIDATE_DATES)
 
+#define VERDICT_OK(c) ((c).authStatus == PS_CERT_AUTH_PASS || (c).authStatus == PS_CERT_AUTH_FAIL_EXTENSION || (c).authStatus == PS_CERT_AUTH_FAIL_AUTHKEY)
+
 #define POSTS(P) \
     P(ok_every_adjacent_pair_authenticated, IMPLIES(OK && NANCH > 0, (NCERT < 2 || PAIR_OK(0)) && (NCERT < 3 || PAIR_OK(1)))) \
     P(ok_last_cert_authenticated_by_a_trust_anchor, IMPLIES(OK && NANCH > 0, gh_auth_n >= NCERT && gh_auth_sc[LASTK] == LASTC && vr_is_anchor(gh_auth_ic[LASTK]) && gh_auth_ret[LASTK] == PS_SUCCESS && g_found == gh_auth_ic[LASTK])) \
     P(ok_verdicts_are_those_of_the_successful_steps, IMPLIES(OK && NANCH > 0, gh_auth_n >= NCERT && (NCERT < 2 || g_c0.authStatus == gh_auth_verdict[0]) && (NCERT < 3 || g_c1.authStatus == gh_auth_verdict[1]) && LASTC->authStatus == gh_auth_verdict[LASTK] && LASTC->authStatus != PS_FALSE)) \
+    P(ok_every_verdict_is_pass_or_a_recorded_failure, IMPLIES(OK, VERDICT_OK(g_c0) && (NCERT < 2 || VERDICT_OK(g_c1)) && (NCERT < 3 || VERDICT_OK(g_c2)))) \
     P(ok_path_length_of_intermediates_respected, IMPLIES(OK && NANCH > 0, (NCERT < 2 || vr_plc_ok(&g_c1, &g_c0, 0)) && (NCERT < 3 || vr_plc_ok(&g_c2, &g_c1, 1)))) \
     P(ok_path_length_of_anchor_respected,  IMPLIES(OK && NANCH > 0, gh_auth_n >= 1 && vr_is_anchor(gh_auth_ic[LASTK]) && vr_plc_ok(gh_auth_ic[LASTK], LASTC, NCERT - 1))) \
     P(ok_leaf_critical_eku_allows_tls,     IMPLIES(OK && NANCH > 0 && (g_c0.extensions.critFlags & EXT_CRIT_FLAG(OID_ENUM(id_ce_extKeyUsage))), (g_c0.extensions.ekuFlags & (EXT_KEY_USAGE_TLS_SERVER_AUTH | EXT_KEY_USAGE_TLS_CLIENT_AUTH)) != 0)) \
